@@ -150,6 +150,24 @@ func (g *c18Gen) stmts(depth int, vis []string) []*mj.Node {
 		switch kind {
 		case 0, 1:
 			g.labels["api-let"] = true
+			if g.n(0, 5, "letInElseOfEmptyRange") == 0 {
+				// a declaring range over nothing: what Go code declares in its else branch (no := before it) is gone
+				// after {{end}}, as a := at the same spot would be - and leaves a variable of that name further out alone
+				g.p.Vars["emptyxs"] = mj.RInts()
+				known := false
+				for _, nm := range vis {
+					known = known || nm == name
+				}
+				rn := &mj.Node{K: "range", Names: []string{g.id("ri"), g.id("rv")}, Decl: true, E: mj.Var("emptyxs"), Body: []*mj.Node{mj.Text("never")}, HasElse: true,
+					Else: []*mj.Node{api("apiLet", mj.Str(name), mj.Str(g.id("else-let"))), mj.Text("(in else " + name + "="), mj.Print(mj.Var(name)), mj.Text(")")}}
+				out = append(out, rn, mj.Text("(after the range "+name+" set:"), mj.Print(mj.Call("isset", mj.Var(name))))
+				if known {
+					out = append(out, mj.Text(" value:"), mj.Print(mj.Var(name)))
+				}
+				out = append(out, mj.Text(")"))
+				g.labels["api-let-in-the-else-branch-of-a-declaring-range"] = true
+				continue
+			}
 			if g.n(0, 5, "letReflectValue") == 0 {
 				// the value bound is a reflect.Value (a struct like any other): what is bound is that struct, as with :=
 				g.p.Vars["rv"] = mj.Recipe{T: "reflect-value"}
